@@ -3,6 +3,7 @@
     interleaving of it on which the hypotheses of every theorem of Properties/C15.v hold *)
 From Coq Require Import List ZArith Arith.
 From ApiFu Require Import Idle.IdleModel Idle.IdleSpec Idle.IdleProofs Idle.IdleLive Idle.IdleHist Idle.IdleCheck.
+From ApiFu Require Idle.IdleFair.
 Import ListNotations.
 Open Scope Z_scope.
 
@@ -32,16 +33,24 @@ Definition ex_rest : list label :=
 Definition ex_round : list label := ex_pre ++ LIdleEnter :: ex_mid ++ [LIdleExit].
 Definition ex_trace : list label := ex_round ++ ex_rest.
 
-Definition phase_after (fx : bool) (tr : list label) : option phase :=
+(** the same request under the rewrite that does not loop after a chained delivery: the handler
+    returns after [recv 3] and is entered again *)
+Definition ex_rest_noloop : list label :=
+  [LConsume 1; LConsume 2; LConsume 0; LCreate 5; LIdleEnter; LFinish 3; LArrive 3; LRecv 3; LIdleExit;
+   LIdleEnter; LRead 4; LArrive 4; LRecv 4; LIdleExit; LConsume 4; LEnd].
+Definition ex_trace_noloop : list label := ex_round ++ ex_rest_noloop.
+
+Definition phase_after (fx : variant) (tr : list label) : option phase :=
   match run fx ex_prog init tr with Some s => Some (st_phase s) | None => None end.
 
 (** the whole interleaving is a run of the model (pinned and repaired) and ends the request *)
-Example ex_runs : phase_after true ex_trace = Some PEnded /\ phase_after false ex_trace = Some PEnded.
-Proof. vm_compute. split; reflexivity. Qed.
+Example ex_runs : phase_after current ex_trace = Some PEnded /\ phase_after pinned ex_trace = Some PEnded /\
+  phase_after (mkVariant true false) ex_trace_noloop = Some PEnded.
+Proof. vm_compute. repeat split; reflexivity. Qed.
 
 (** hypotheses of C15_batch_coalesced: an idle round with a pending batch of two invocations *)
 Example ex_round_runs :
-  phase_after true ex_round = Some PPoll /\ ~ In LIdleExit ex_mid /\
+  phase_after current ex_round = Some PPoll /\ ~ In LIdleExit ex_mid /\
   pending_after ex_prog 0 ex_pre = [1; 2] /\ calls_of 0 ex_mid = [(0, [1; 2])].
 Proof.
   split; [vm_compute; reflexivity|]. split; [|split; vm_compute; reflexivity].
@@ -51,7 +60,7 @@ Qed.
 (** hypotheses of C15_delivery_exact: after the round the batch promises hold the positional
     results and the Go promise holds its function's result *)
 Example ex_delivered :
-  match run true ex_prog init ex_round with
+  match run current ex_prog init ex_round with
   | Some s => (st_chan s 0, st_chan s 1, st_chan s 2)
   | None => (None, None, None)
   end = (Some (ROk 10%Z), Some (ROk 11%Z), Some (RErr 12%Z)).
@@ -61,7 +70,7 @@ Proof. vm_compute. reflexivity. Qed.
     receive with no batch pending and nothing parked yet (the second wave) *)
 Definition ex_blocked : list label := ex_round ++ [LConsume 1; LConsume 2; LConsume 0; LCreate 5; LIdleEnter].
 Example ex_blocked_state :
-  match run true ex_prog init ex_blocked with
+  match run current ex_prog init ex_blocked with
   | Some s => (st_phase s, st_pend s, st_gor s 3, st_gor s 4)
   | None => (PPanic, [], GNone, GNone)
   end = (PTop, [], GComputing, GWaiting 0 []).
@@ -71,7 +80,7 @@ Proof. vm_compute. reflexivity. Qed.
     f() (its promise was abandoned) *)
 Definition ex_abandon : list label := [LCreate 0; LAbandon 0; LEnd].
 Example ex_abandon_state :
-  match run true ex_prog init ex_abandon with
+  match run current ex_prog init ex_abandon with
   | Some s => (st_phase s, st_gor s 0)
   | None => (PPanic, GNone)
   end = (PEnded, GComputing).
@@ -80,16 +89,46 @@ Proof. vm_compute. reflexivity. Qed.
 (** the theorems instantiated *)
 Example ex_coalesced_instance : calls_of 0 ex_mid = [(0, [1; 2])].
 Proof.
-  assert (R : exists s, run true ex_prog init (ex_pre ++ LIdleEnter :: ex_mid ++ [LIdleExit]) = Some s).
+  assert (R : exists s, run current ex_prog init (ex_pre ++ LIdleEnter :: ex_mid ++ [LIdleExit]) = Some s).
   { vm_compute. eexists. reflexivity. }
   destruct R as [s R].
-  rewrite (batch_coalesced ex_prog ex_wf ex_bf true ex_pre ex_mid s R).
+  rewrite (batch_coalesced ex_prog ex_wf ex_bf current ex_pre ex_mid s R).
   - vm_compute. reflexivity.
   - intro H. simpl in H. repeat (destruct H as [H|H]; [discriminate|]). exact H.
 Qed.
 
 Example ex_terminates_instance : length ex_trace <= 36 * 6 + 1.
 Proof.
-  assert (R : exists s, run true ex_prog init ex_trace = Some s) by (vm_compute; eexists; reflexivity).
-  destruct R as [s R]. exact (terminates ex_prog ex_wf ex_bf true ex_trace s R).
+  assert (R : exists s, run current ex_prog init ex_trace = Some s) by (vm_compute; eexists; reflexivity).
+  destruct R as [s R]. exact (terminates ex_prog ex_wf ex_bf current ex_trace s R).
 Qed.
+
+(** hypotheses of C15_idle_round_fair_unchained: a request without chaining and one of its rounds *)
+Definition ex2_prog : prog := mk_prog [mkItem KGo None false (ROk 1%Z); mkItem (KBatch 0) None false (ROk 2%Z)].
+Definition ex2_pre : list label := [LCreate 0; LCreate 1].
+Definition ex2_mid : list label := [LFlush 0 [1]; LFlushDone; LFinish 0; LArrive 0; LRecv 0].
+
+Example ex2_no_chaining : IdleFair.no_chaining ex2_prog.
+Proof.
+  intros w it L. destruct w as [|[|w]]; simpl in L.
+  - inversion L; reflexivity.
+  - inversion L; reflexivity.
+  - unfold lookup in L. simpl in L. destruct w; discriminate.
+Qed.
+
+Example ex2_round_runs :
+  wf_items ex2_prog = true /\
+  match run current ex2_prog init (ex2_pre ++ LIdleEnter :: ex2_mid ++ [LIdleExit]) with
+  | Some s => Some (st_phase s) | None => None end = Some PPoll /\
+  deliveries ex2_mid = [1; 0].
+Proof. vm_compute. repeat split; reflexivity. Qed.
+
+(** C15_idle_rounds_bounded on the main example: two idle rounds, five promise items *)
+Example ex_rounds_bounded_instance :
+  IdleFair.exits ex_trace = 2 /\ length (filter (promise_item ex_prog) (ids ex_prog)) = 5.
+Proof. vm_compute. split; reflexivity. Qed.
+
+(** the handler record of the main example as a C02 scheduler: round 0 fills 1, 2, 0; round 1 fills 3, 4 *)
+Example ex_sched_agrees :
+  IdleFair.sched_of_rounds [[1; 2; 0]; [3; 4]] 1 [(3, 0%N); (4, 0%N)] = [3; 4].
+Proof. reflexivity. Qed.
